@@ -315,3 +315,288 @@ Proof.
   destruct (opt_copy (simm fimm ib') rec h2 k2) as [[h3 k3]|e]; [| reflexivity].
   reflexivity.
 Qed.
+
+(* ------------------------------------------------------------------ _DequeStruct *)
+
+Definition defaults_ok (E : aenv) : bool :=
+  match e_defaults E (s2p "defensive_copy_on_get") with Some _ => true | None => false end.
+
+Section DequeStruct.
+  Variables (E : aenv) (rec : heap -> child -> res (heap * child)).
+  Variables (fimm : bool) (ib : ibind) (nm : aval).
+
+  (* iterating a wrapper that is not bound immutable yields the items as they are *)
+  Lemma src_deque_iter_plain b h :
+    defaults_ok E = true -> simm fimm ib = false ->
+    Src_DequeStruct_iter E rec (wview b fimm ib nm) h = a_super_iter (wview b fimm ib nm) h.
+  Proof.
+    unfold defaults_ok. intros D S. unfold Src_DequeStruct_iter.
+    destruct (e_defaults E (s2p "defensive_copy_on_get")) as [v|] eqn:Dv; [| discriminate D].
+    destruct fimm; [discriminate S |].
+    assert (A : (t1 <~ a_defaults E (s2p "defensive_copy_on_get") ;; a_truthy t1) h = Ok (h, py_truthy v)).
+    { unfold mbind, a_defaults. rewrite Dv. reflexivity. }
+    set (dpv := match ib with Some (_, _, dp) => dp | None => false end).
+    assert (B : (t2 <~ (t3 <~ mret (wview b false ib nm) ;; a_getattr E t3 (s2p "_instance")) ;;
+                 t4 <~ mret (abool false) ;; a_getattr_def E t2 (s2p "_disable_protection") t4) h = Ok (h, abool dpv)).
+    { subst dpv. destruct ib as [[[i iimm] dp]|]; reflexivity. }
+    unfold mbind at 1. unfold m_or_val at 1. unfold mbind at 1. rewrite B.
+    assert (I : Src_ImmutableMixin_is_immutable E rec (wview b false ib nm) h = Ok (h, abool false)).
+    { rewrite src_is_immutable. rewrite S. reflexivity. }
+    destruct dpv.
+    - unfold mbind at 1. cbn [a_truthy abool py_truthy]. cbn [mret]. reflexivity.
+    - unfold mbind at 1. cbn [a_truthy abool py_truthy]. unfold m_boolval at 1. unfold mbind at 1.
+      unfold m_not at 1. unfold mbind at 1. rewrite A.
+      destruct (py_truthy v); cbn [negb mret abool].
+      + unfold mbind at 1. unfold m_and at 1. unfold mbind at 1. unfold m_not at 1. unfold mbind at 1.
+        unfold mbind at 1. cbn [mret a_truthy abool py_truthy negb]. unfold mbind at 1. rewrite I.
+        reflexivity.
+      + reflexivity.
+  Qed.
+
+  Lemma src_wrapper_iter_deque l h o :
+    defaults_ok E = true -> simm fimm ib = false -> get h l = Some o -> o_kind o = KWDeque ->
+    Src_wrapper_iter E rec (wview (AV (CRef l)) fimm ib nm) h =
+    Ok (h, AGen (map (fun p : pystr * child => mret (AV (snd p))) (o_kids o))).
+  Proof.
+    intros D S G K. unfold Src_wrapper_iter, mbind. rewrite a_body_wview. unfold kind_of. rewrite G. cbn beta iota.
+    rewrite K. rewrite src_deque_iter_plain by assumption.
+    unfold a_super_iter, mbind. rewrite a_body_wview. unfold kind_of, a_kids.
+    repeat (first [rewrite G | rewrite K | progress cbn beta iota]). reflexivity.
+  Qed.
+
+  (* copy() of a deque wrapper not bound immutable: a NEW plain deque of the items, never the live one *)
+  Theorem src_deque_copy l h o :
+    defaults_ok E = true -> simm fimm ib = false -> get h l = Some o -> o_kind o = KWDeque ->
+    Src_DequeStruct_copy E rec (wview (AV (CRef l)) fimm ib nm) h = Ok (h, ATmp KDeque (unlabel (o_kids o))).
+  Proof.
+    intros D S G K. unfold Src_DequeStruct_copy. unfold mbind at 1. unfold mbind at 1. unfold mret at 1.
+    unfold a_new_from. unfold mbind at 1. unfold a_iterate. unfold wview at 1. unfold mbind at 1.
+    fold (wview (AV (CRef l)) fimm ib nm).
+    rewrite (src_wrapper_iter_deque l h o D S G K). unfold mret at 1. unfold mbind at 1.
+    rewrite run_plain_thunks. rewrite as_kids_plain. unfold mret at 1.
+    unfold mbind at 1. unfold mbind at 1. rewrite src_is_immutable. rewrite S. reflexivity.
+  Qed.
+
+  Lemma src_deque_init kids h :
+    Src_DequeStruct_init E rec (AObj []) (fdesc fimm) (inst_of ib) (ATmp KList kids) nm h =
+    lift_kids (opt_copy (simm fimm ib) rec h kids) (fun h1 ks => Ok (h1, wview (ATmp KWDeque (unlabel ks)) fimm ib nm)).
+  Proof.
+    unfold Src_DequeStruct_init.
+    unfold mbind at 1. unfold mbind at 1. unfold mret at 1. unfold a_setattr at 1. cbn [alist_set]. unfold mret at 1.
+    unfold mbind at 1. unfold mbind at 1. unfold mret at 1. unfold a_setattr at 1. unfold mret at 1.
+    unfold mbind at 1. unfold mbind at 1. unfold mret at 1. unfold a_setattr at 1. unfold mret at 1.
+    unfold mbind at 1. unfold m_not at 1. unfold mbind at 1. unfold mbind at 1. unfold mret at 1.
+    unfold a_is_none at 1. unfold mret at 1. cbn [negb]. unfold mret at 1.
+    unfold mbind at 1. unfold mbind at 1. unfold mbind at 1. unfold mret at 1.
+    match goal with |- context [Src_ImmutableMixin_get_defensive_copy_if_needed E rec ?s _ _] =>
+      change s with (AObj (wattrs (fdesc fimm) (inst_of ib) nm)) end.
+    assert (D : forall v, Src_ImmutableMixin_get_defensive_copy_if_needed E rec (AObj (wattrs (fdesc fimm) (inst_of ib) nm)) v h =
+                          Src_ImmutableMixin_get_defensive_copy_if_needed E rec (wview anone fimm ib nm) v h).
+    { intro v. destruct fimm; destruct ib as [[[i iimm] dp]|]; try destruct iimm; reflexivity. }
+    rewrite D. rewrite src_defcopy_tmp by reflexivity. unfold opt_copy.
+    assert (I : forall h1 ks,
+      a_super_init E (Src_wrapper_iter E rec) (Src_wrapper_getitem E rec) KWDeque (AObj (wattrs (fdesc fimm) (inst_of ib) nm)) (ATmp KList ks) h1 =
+      Ok (h1, wview (ATmp KWDeque (unlabel ks)) fimm ib nm)).
+    { intros h1 ks. unfold a_super_init.
+      assert (N : alist_get (wattrs (fdesc fimm) (inst_of ib) nm) body_key = None) by reflexivity.
+      rewrite N. unfold mbind at 1. cbn [a_iterate]. unfold mret at 1. unfold mbind at 1.
+      rewrite run_plain_thunks. rewrite as_kids_plain. reflexivity. }
+    destruct (simm fimm ib).
+    - unfold a_deepcopy. cbn [plain_kind].
+      destruct (map_kidsR rec h kids) as [[h1 ks]|e]; [| reflexivity].
+      cbn [lift_kids]. rewrite I. reflexivity.
+    - cbn [lift_kids]. rewrite I. reflexivity.
+  Qed.
+
+End DequeStruct.
+
+Theorem src_deque_deepcopy E rec fimm ib nm l h o m ib' :
+    defaults_ok E = true -> simm fimm ib = false -> get h l = Some o -> o_kind o = KWDeque ->
+    rebind m ib = inst_of ib' ->
+    (r <~ Src_DequeStruct_deepcopy E rec (wview (AV (CRef l)) fimm ib nm) (AMemo m) ;; a_to_child r) h =
+    deepcopy_wrapper_spec KWDeque rec false (simm fimm ib') h (o_kids o).
+  Proof.
+    intros D S G K R. unfold Src_DequeStruct_deepcopy, deepcopy_wrapper_spec. mstep.
+    rewrite (src_deque_copy E rec fimm ib nm l h o D S G K).
+    cbn [lift_kids a_iterate opt_copy]. mstep.
+    match goal with |- context [a_listcomp ?f ?ths ?hh] =>
+      replace (a_listcomp f ths hh) with (lift_kids (map_kidsR rec hh (unlabel (unlabel (o_kids o)))) (fun h1 ks => Ok (h1, ATmp KList ks)))
+        by (symmetry; apply (listcomp_deepcopy_plain rec); intros; reflexivity) end.
+    rewrite unlabel_idem.
+    destruct (map_kidsR rec h (unlabel (o_kids o))) as [[h2 k2]|e]; [| reflexivity].
+    cbn [lift_kids]. mstep.
+    rewrite getattr_instance. mstep. rewrite a_id_inst. mstep.
+    rewrite getattr_fielddef. mstep. rewrite deepcopy_fdesc. mstep.
+    rewrite getattr_instance. mstep. rewrite memo_get_inst. mstep.
+    rewrite getattr_name. mstep. rewrite R.
+    rewrite src_deque_init.
+    destruct (opt_copy (simm fimm ib') rec h2 k2) as [[h3 k3]|e]; [| reflexivity].
+    reflexivity.
+  Qed.
+
+(* ------------------------------------------------------------------ _DictStruct *)
+
+(* key, value, key, value ... as the children of a dict *)
+Fixpoint flat_pairs (ps : list (child * child)) : list (pystr * child) :=
+  match ps with [] => [] | (k, v) :: t => (([] : pystr), k) :: (([] : pystr), v) :: flat_pairs t end.
+
+Lemma kid_pairs_flat : forall n kids ps, List.length kids <= n -> kid_pairs kids = Some ps -> flat_pairs ps = unlabel kids.
+Proof.
+  induction n as [|n IH]; intros kids ps L H.
+  - destruct kids; [| simpl in L; lia]. inversion H. reflexivity.
+  - destruct kids as [|[a k] [|[b v] t]]; try (inversion H; reflexivity); try discriminate H.
+    cbn [kid_pairs] in H. destruct (kid_pairs t) as [r|] eqn:Kt; [| discriminate H]. inversion H; subst ps.
+    cbn [flat_pairs unlabel map snd]. f_equal. f_equal. apply IH; [simpl in L; lia | exact Kt].
+Qed.
+
+Lemma dictcomp_deepcopy rec (fk fv : aval -> M aval) :
+  (forall k v h, fk (APair (AV k) (AV v)) h = a_deepcopy rec (AV k) h) ->
+  (forall k v h, fv (APair (AV k) (AV v)) h = a_deepcopy rec (AV v) h) ->
+  forall ps ths,
+    Forall2 (fun (t : M aval) (p : child * child) => forall h, t h = Ok (h, APair (AV (fst p)) (AV (snd p)))) ths ps ->
+    forall h, a_dictcomp fk fv ths h =
+              lift_kids (map_kidsR rec h (flat_pairs ps)) (fun h1 ks => Ok (h1, ATmp KDict ks)).
+Proof.
+  intros Fk Fv ps ths F2 h. unfold a_dictcomp. unfold mbind at 1.
+  assert (G : forall acc h,
+    a_fold (fun acc x => k <~ fk x ;; kc <~ a_child k ;; v <~ fv x ;; vc <~ a_child v ;;
+                         mret (acc ++ [(([] : pystr), kc); (([] : pystr), vc)])) ths acc h =
+    lift_kids (map_kidsR rec h (flat_pairs ps)) (fun h1 ks => Ok (h1, acc ++ ks))).
+  { clear h. induction F2 as [|t [k v] ths ps T F2 IH]; intros acc h.
+    - cbn. rewrite app_nil_r. reflexivity.
+    - cbn [a_fold flat_pairs map_kidsR]. unfold mbind at 1. rewrite T. cbn [fst snd].
+      unfold mbind at 1. unfold mbind at 1. rewrite Fk. unfold a_deepcopy at 1.
+      destruct (rec h k) as [[h1 k1]|e]; [| reflexivity].
+      unfold mbind at 1. unfold a_child at 1. unfold mret at 1. unfold mbind at 1. rewrite Fv. unfold a_deepcopy at 1.
+      destruct (rec h1 v) as [[h2 v1]|e]; [| reflexivity].
+      unfold mbind at 1. unfold a_child at 1. unfold mret at 1. unfold mret at 1.
+      rewrite IH. destruct (map_kidsR rec h2 (flat_pairs ps)) as [[h3 ks]|e]; [| reflexivity].
+      cbn [lift_kids]. rewrite <- app_assoc. reflexivity. }
+  rewrite G. destruct (map_kidsR rec h (flat_pairs ps)) as [[h1 ks]|e]; reflexivity.
+Qed.
+
+Section DictStruct.
+  Variables (tb : loc -> wbind) (ia : loc -> pystr -> option pyval) (df : pystr -> option pyval).
+  Variable rec : heap -> child -> res (heap * child).
+  Variables (fimm : bool) (ib : ibind) (nm : aval).
+  Let E := env_of (fun l => Some (tb l)) ia df.
+
+  (* a value read through a wrapper not bound immutable is handed out as it is *)
+  Lemma src_defcopy_child_plain b c h :
+    simm fimm ib = false ->
+    Src_ImmutableMixin_get_defensive_copy_if_needed E rec (wview b fimm ib nm) (AV c) h = Ok (h, AV c).
+  Proof.
+    intro S. unfold E. rewrite src_defcopy_child. rewrite S. unfold exempt.
+    destruct (child_isinstance h c atom_tys); [reflexivity |].
+    destruct (child_isinstance h c [TImmMixin]); [| reflexivity].
+    destruct c; [reflexivity |]. destruct (negb _); reflexivity.
+  Qed.
+
+  Theorem src_dict_copy l h o :
+    get h l = Some o -> o_kind o = KWDict ->
+    Src_DictStruct_copy E rec (wview (AV (CRef l)) fimm ib nm) h =
+    lift_kids (opt_copy (simm fimm ib) rec h (o_kids o)) (fun h1 ks => Ok (h1, ATmp KDict ks)).
+  Proof.
+    intros G K. unfold Src_DictStruct_copy. unfold mbind at 1.
+    assert (A : a_super_copy (wview (AV (CRef l)) fimm ib nm) h = Ok (h, ATmp KDict (o_kids o))).
+    { unfold a_super_copy, mbind. rewrite a_body_wview. unfold kind_of, a_kids.
+      repeat (first [rewrite G | rewrite K | progress cbn beta iota]). reflexivity. }
+    rewrite A. unfold mbind at 1. unfold mbind at 1. rewrite src_is_immutable. unfold opt_copy.
+    destruct (simm fimm ib); [| reflexivity].
+    cbn -[map_kidsR]. destruct (map_kidsR rec h (o_kids o)) as [[h1 ks]|e]; reflexivity.
+  Qed.
+
+  (* _DictStruct(map, instance, <a fresh plain dict>, name), not bound immutable: the body holds the entries *)
+  Lemma src_dict_init kids ps h :
+    simm fimm ib = false -> kid_pairs kids = Some ps ->
+    Src_DictStruct_init E rec (AObj []) (fdesc fimm) (inst_of ib) (ATmp KDict kids) nm h =
+    Ok (h, wview (ATmp KWDict kids) fimm ib nm).
+  Proof.
+    intros S P. unfold Src_DictStruct_init.
+    unfold mbind at 1. unfold mbind at 1. unfold mret at 1. unfold a_setattr at 1. cbn [alist_set]. unfold mret at 1.
+    unfold mbind at 1. unfold mbind at 1. unfold mret at 1. unfold a_setattr at 1. unfold mret at 1.
+    unfold mbind at 1. unfold mbind at 1. unfold mret at 1. unfold a_setattr at 1. unfold mret at 1.
+    unfold mbind at 1. unfold mbind at 1. unfold mbind at 1. unfold mret at 1.
+    match goal with |- context [Src_ImmutableMixin_get_defensive_copy_if_needed E rec ?s _ _] =>
+      change s with (AObj (wattrs (fdesc fimm) (inst_of ib) nm)) end.
+    assert (D : forall v, Src_ImmutableMixin_get_defensive_copy_if_needed E rec (AObj (wattrs (fdesc fimm) (inst_of ib) nm)) v h =
+                          Src_ImmutableMixin_get_defensive_copy_if_needed E rec (wview anone fimm ib nm) v h).
+    { intro v. destruct fimm; destruct ib as [[[i iimm] dp]|]; try destruct iimm; reflexivity. }
+    rewrite D. rewrite src_defcopy_tmp by reflexivity. rewrite S.
+    unfold a_super_init.
+    assert (N : alist_get (wattrs (fdesc fimm) (inst_of ib) nm) body_key = None) by reflexivity.
+    rewrite N. unfold mbind at 1. unfold a_dict_entries. unfold mbind at 1. cbn [kind_of]. unfold mbind at 1.
+    cbn [a_kids]. rewrite P. reflexivity.
+  Qed.
+
+  (* self.items() of a wrapper not bound immutable: the entries as they are, whenever they are consumed *)
+  Lemma src_dict_items l h o ps :
+    simm fimm ib = false -> get h l = Some o -> o_kind o = KWDict -> kid_pairs (o_kids o) = Some ps ->
+    exists ths, Src_DictStruct_items E rec (wview (AV (CRef l)) fimm ib nm) h = Ok (h, AGen ths) /\
+      Forall2 (fun (t : M aval) (p : child * child) => forall h, t h = Ok (h, APair (AV (fst p)) (AV (snd p)))) ths ps.
+  Proof.
+    intros S G K P. unfold Src_DictStruct_items. unfold mbind at 1. unfold mbind at 1.
+    assert (A : a_super_items (wview (AV (CRef l)) fimm ib nm) h =
+                Ok (h, AGen (map (fun p : child * child => mret (APair (AV (fst p)) (AV (snd p)))) ps))).
+    { unfold a_super_items, mbind. rewrite a_body_wview. unfold kind_of, a_kids.
+      repeat (first [rewrite G | rewrite K | rewrite P | progress cbn beta iota]). reflexivity. }
+    rewrite A. cbn [a_iterate]. unfold mret at 1. unfold a_genexp. unfold mret at 1.
+    eexists. split; [reflexivity |].
+    clear A P. induction ps as [|[k v] t IH]; [constructor |].
+    cbn [map]. constructor; [| exact IH].
+    intro h'. cbn [fst snd]. unfold mbind at 1. unfold mret at 1. unfold mbind at 1. unfold a_unpair at 1. unfold mret at 1.
+    unfold mbind at 1. unfold mret at 1. unfold mbind at 1. unfold mbind at 1. unfold mret at 1.
+    rewrite (src_defcopy_child_plain (AV (CRef l)) v h' S). reflexivity.
+  Qed.
+End DictStruct.
+
+Lemma map_kidsR_unlabel rec : forall kids h h2 k2,
+  map_kidsR rec h (unlabel kids) = Ok (h2, k2) -> unlabel k2 = k2.
+Proof.
+  induction kids as [|[a c] t IH]; intros h h2 k2 H.
+  - inversion H. reflexivity.
+  - cbn [unlabel map snd map_kidsR] in H. destruct (rec h c) as [[h1 c1]|e]; [| discriminate H].
+    fold (unlabel t) in H. destruct (map_kidsR rec h1 (unlabel t)) as [[h3 t3]|e] eqn:M; [| discriminate H].
+    inversion H; subst. cbn [unlabel map snd]. fold (unlabel t3). rewrite (IH _ _ _ M). reflexivity.
+Qed.
+
+Lemma map_kidsR_pairs rec : forall ps kids h h2 k2,
+  kid_pairs kids = Some ps -> map_kidsR rec h (unlabel kids) = Ok (h2, k2) -> exists ps2, kid_pairs k2 = Some ps2.
+Proof.
+  induction ps as [|p ps IH]; intros kids h h2 k2 P H.
+  - destruct kids as [|[a k] [|[b v] t]]; try discriminate P.
+    + inversion H. exists []. reflexivity.
+    + cbn [kid_pairs] in P. destruct (kid_pairs t); discriminate P.
+  - destruct kids as [|[a k] [|[b v] t]]; try discriminate P.
+    cbn [kid_pairs] in P. destruct (kid_pairs t) as [r|] eqn:Kt; [| discriminate P]. inversion P; subst.
+    cbn [unlabel map snd map_kidsR] in H. fold (unlabel t) in H.
+    destruct (rec h k) as [[h1 k1]|e]; [| discriminate H].
+    destruct (rec h1 v) as [[h3 v1]|e]; [| discriminate H].
+    destruct (map_kidsR rec h3 (unlabel t)) as [[h4 t4]|e] eqn:M; [| discriminate H].
+    inversion H; subst. destruct (IH t h3 _ t4 Kt M) as [ps2 P2].
+    exists ((k1, v1) :: ps2). cbn [kid_pairs]. rewrite P2. reflexivity.
+Qed.
+
+Theorem src_dict_deepcopy tb ia df rec fimm ib nm l h o ps m ib' :
+  simm fimm ib = false -> simm fimm ib' = false -> get h l = Some o -> o_kind o = KWDict ->
+  kid_pairs (o_kids o) = Some ps -> rebind m ib = inst_of ib' ->
+  (r <~ Src_DictStruct_deepcopy (env_of (fun l => Some (tb l)) ia df) rec (wview (AV (CRef l)) fimm ib nm) (AMemo m) ;; a_to_child r) h =
+  deepcopy_wrapper_spec KWDict rec false false h (o_kids o).
+Proof.
+  intros S S' G K P R. unfold Src_DictStruct_deepcopy, deepcopy_wrapper_spec. mstep.
+  destruct (src_dict_items tb ia df rec fimm ib nm l h o ps S G K P) as [ths [I F2]].
+  rewrite I. cbn [a_iterate opt_copy lift_kids]. mstep.
+  match goal with |- context [a_dictcomp ?fk ?fv ths ?hh] =>
+    replace (a_dictcomp fk fv ths hh) with (lift_kids (map_kidsR rec hh (flat_pairs ps)) (fun h1 ks => Ok (h1, ATmp KDict ks)))
+      by (symmetry; apply (dictcomp_deepcopy rec); [intros; reflexivity | intros; reflexivity | exact F2]) end.
+  rewrite (kid_pairs_flat _ _ _ (le_n _) P).
+  destruct (map_kidsR rec h (unlabel (o_kids o))) as [[h2 k2]|e] eqn:MK; [| reflexivity].
+  cbn [lift_kids]. mstep.
+  rewrite getattr_instance. mstep. rewrite a_id_inst. mstep.
+  rewrite getattr_fielddef. mstep.
+  rewrite getattr_instance. mstep. rewrite memo_get_inst. mstep.
+  rewrite getattr_name. mstep. rewrite R.
+  destruct (map_kidsR_pairs rec ps (o_kids o) h h2 k2 P MK) as [ps2 P2].
+  rewrite (src_dict_init tb ia df rec fimm ib' nm k2 ps2 h2 S' P2).
+  rewrite (map_kidsR_unlabel rec _ _ _ _ MK). reflexivity.
+Qed.
